@@ -840,26 +840,38 @@ package keeper
 //@ ensures[C19.cb] err == nil ==> len(perMessageBurnLimits) == old(len(perMessageBurnLimits)) + 1 && perMessageBurnLimits[old(len(perMessageBurnLimits))].Denom == decoded(PerMessageBurnLimit, Denom, value) && perMessageBurnLimits[old(len(perMessageBurnLimits))].Amount.v == decoded(PerMessageBurnLimit, Amount_v, value)
 //@ ensures[C19.cb.keep] forall j: int :: 0 <= j && j < old(len(perMessageBurnLimits)) ==> perMessageBurnLimits[j].Denom == old(perMessageBurnLimits[j].Denom) && perMessageBurnLimits[j].Amount.v == old(perMessageBurnLimits[j].Amount.v)
 
-// The remaining full-collection reads. Same shape as GetAllAttesters (which is proved against the store
-// iterator model); for these four the list view of the collection is an abstract component and the contract
-// is assumed: the iterator yields the collection's entries in key order.
+// The remaining full-collection reads: same shape as GetAllAttesters, proved against the same store iterator
+// model (L0: the iterator of a prefix store yields the entries under the prefix in key order). The list view of
+// each collection is defined from the raw store as the decoded values at the iterator's keys.
 
 //@ func (Keeper) GetAllPerMessageBurnLimits(ctx) (list)
-//@ trusted
+//@ layer L2
 //@ ensures[all] list == stLimits()
 //@ modifies none
+//@ local list []types.PerMessageBurnLimit
+//@ loop 0 invariant[len]   uint64(len(list)) == iterPos() && iterPos() <= st.nLimits
+//@ loop 0 invariant[elems] forall j: uint64 :: (j < uint64(len(list)) ==> list[j].Denom == st.limitList.Denom[j] && list[j].Amount.isnil == st.limitList.Amount.nil[j] && list[j].Amount.v == st.limitList.Amount.v[j]) && (j >= uint64(len(list)) ==> list[j].Denom == "" && !list[j].Amount.isnil && list[j].Amount.v == 0)
 
 //@ func (Keeper) GetAllTokenPairs(ctx) (list)
-//@ trusted
+//@ layer L2
 //@ ensures[all] list == stPairs()
 //@ modifies none
+//@ local list []types.TokenPair
+//@ loop 0 invariant[len]   uint64(len(list)) == iterPos() && iterPos() <= st.nPairs
+//@ loop 0 invariant[elems] forall j: uint64 :: (j < uint64(len(list)) ==> list[j].RemoteDomain == st.pairList.RemoteDomain[j] && list[j].RemoteToken == st.pairList.RemoteToken[j] && list[j].RemoteToken.isnil == st.pairList.RemoteToken.isnil[j] && list[j].LocalToken == st.pairList.LocalToken[j]) && (j >= uint64(len(list)) ==> list[j].RemoteDomain == 0 && list[j].RemoteToken == "" && !list[j].RemoteToken.isnil && list[j].LocalToken == "")
 
 //@ func (Keeper) GetAllUsedNonces(ctx) (list)
-//@ trusted
+//@ layer L2
 //@ ensures[all] list == stNonces()
 //@ modifies none
+//@ local list []types.Nonce
+//@ loop 0 invariant[len]   uint64(len(list)) == iterPos() && iterPos() <= st.nNonces
+//@ loop 0 invariant[elems] forall j: uint64 :: (j < uint64(len(list)) ==> list[j].SourceDomain == st.nonceList.SourceDomain[j] && list[j].Nonce == st.nonceList.Nonce[j]) && (j >= uint64(len(list)) ==> list[j].SourceDomain == 0 && list[j].Nonce == 0)
 
 //@ func (Keeper) GetRemoteTokenMessengers(ctx) (list)
-//@ trusted
+//@ layer L2
 //@ ensures[all] list == stMessengers()
 //@ modifies none
+//@ local list []types.RemoteTokenMessenger
+//@ loop 0 invariant[len]   uint64(len(list)) == iterPos() && iterPos() <= st.nMsgrs
+//@ loop 0 invariant[elems] forall j: uint64 :: (j < uint64(len(list)) ==> list[j].DomainId == st.msgrList.DomainId[j] && list[j].Address == st.msgrList.Address[j] && list[j].Address.isnil == st.msgrList.Address.isnil[j]) && (j >= uint64(len(list)) ==> list[j].DomainId == 0 && list[j].Address == "" && !list[j].Address.isnil)
